@@ -167,9 +167,9 @@ namespace detail
 	};
 
 	template<int N, typename T, qualifier Q, int E0, int E1, int E2, int E3>
-	struct _swizzle : public _swizzle_base2<N, T, Q, E0, E1, E2, E3, (E0 == E1 || E0 == E2 || E0 == E3 || E1 == E2 || E1 == E3 || E2 == E3)>
+	struct _swizzle : public _swizzle_base2<N, T, Q, E0, E1, E2, E3, (E0 == E1 || (N > 2 && (E0 == E2 || E1 == E2)) || (N > 3 && (E0 == E3 || E1 == E3 || E2 == E3)))>
 	{
-		typedef _swizzle_base2<N, T, Q, E0, E1, E2, E3, (E0 == E1 || E0 == E2 || E0 == E3 || E1 == E2 || E1 == E3 || E2 == E3)> base_type;
+		typedef _swizzle_base2<N, T, Q, E0, E1, E2, E3, (E0 == E1 || (N > 2 && (E0 == E2 || E1 == E2)) || (N > 3 && (E0 == E3 || E1 == E3 || E2 == E3)))> base_type;
 
 		using base_type::operator=;
 
